@@ -45,7 +45,7 @@ theorem idOpt_optId (o : Option UInt32) (h : o ≠ some 0) : idOpt (optId o) = o
 
 theorem strip (id : UInt32) (h : id &&& marker = 0) : (id ||| marker) &&& ~~~marker = id := by
   simp only [marker] at *
-  bv_decide
+  bv_decide (timeout := 300)
 
 theorem decSlot_encSlot (o : Option Slot) (h : ∀ x, o = some x → SlotOK x) : decSlot (encSlot o) = some o := by
   cases o with
@@ -131,7 +131,7 @@ theorem xor_key_twice (l : Bytes) : (l.map (· ^^^ key)).map (· ^^^ key) = l :=
   conv => rhs; rw [← List.map_id l]
   apply List.map_congr_left; intro x _
   simp only [Function.comp, key, id]
-  bv_decide
+  bv_decide (timeout := 300)
 
 theorem decode_encode (t : Table) (h : WF t) : decode (encode t) = some t := by
   have hsz := Physis.GearSets.wf_sizes t h
